@@ -40,7 +40,7 @@ def run(sid, tier="quick"):
     prop = meta["property"]
     if sh("git -C /repo status --porcelain --untracked-files=no").stdout.strip():
         sys.exit("refusing: /repo has uncommitted changes")
-    r = sh(f"git -C /repo apply --3way {d/'patch.diff'} 2>&1 || git -C /repo apply {d/'patch.diff'}")
+    r = sh(f"git -C /repo apply {d/'patch.diff'} 2>&1")
     applied = sh("git -C /repo status --porcelain --untracked-files=no").stdout.strip() != ""
     out = ""
     try:
